@@ -789,8 +789,29 @@ def _construct(v, rows, dt, case=None):
     if v == "mrag":
         return RunLengthRaggedArray.from_array(np.array(rows, dtype=dt))
     if v == "rag":
-        flat = np.array([x for r in rows for x in r], dtype=dt)
-        return RunLengthRaggedArray.from_ragged_array(RaggedArray(flat, [len(r) for r in rows]))
+        # the ragged input is a freshly built array or (deterministically, depending on the rows) a lazily derived one holding the same rows:
+        # reversed twice, a tail, an index list, a boolean mask - "built from a ragged array" does not depend on how that array came about (C06)
+        def fresh(rs):
+            return RaggedArray(np.array([x for r in rs for x in r], dtype=dt), [len(r) for r in rs])
+        n = len(rows)
+        how = (sum(len(r) * (i + 3) for i, r in enumerate(rows)) + n) % 5
+        dummy = [rows[0][0]] * 2 if n and len(rows[0]) else [0]
+        if how == 1 and n:
+            ra = fresh(rows[::-1])[::-1]
+        elif how == 2 and n:
+            ra = fresh([dummy] + rows)[1:]
+        elif how == 3 and n:
+            perm = list(range(n))[::-1]
+            ra = fresh([rows[i] for i in perm])[[perm.index(i) for i in range(n)]]
+        elif how == 4 and n:
+            inter, mask = [], []
+            for r in rows:
+                inter += [r, dummy]
+                mask += [True, False]
+            ra = fresh(inter)[np.array(mask)]
+        else:
+            ra = fresh(rows)
+        return RunLengthRaggedArray.from_ragged_array(ra)
     if v == "iv":
         st, en = np.array(case["starts"], dtype=np.int64), np.array(case["ends"], dtype=np.int64)
         if case.get("value") is None:
